@@ -4,7 +4,9 @@ import (
 	"context"
 	"errors"
 	"fmt"
+	"strings"
 	"sync"
+	"sync/atomic"
 	"time"
 
 	jsonrpc "github.com/filecoin-project/go-jsonrpc"
@@ -79,6 +81,11 @@ func (c05) Plan(tier string, seed int64) []core.Scenario {
 	for i := 0; i < ni; i++ {
 		add(core.Sc("idle-after-reconnect").WithN("fk", i%2).WithN("b", 0))
 	}
+	// the connection is reset at the instant the connection loop has accepted a request and is about to write
+	// it: the write fails before the reader has reported the loss (a half-dead link)
+	for i := 0; i < 2*ni; i++ {
+		add(core.Sc("write-fails").WithN("occ", 2+i%4).WithN("map", i%2).WithN("b", 0))
+	}
 	return out
 }
 
@@ -91,6 +98,8 @@ func (p c05) Run(sc core.Scenario) core.Result {
 		p.noReconnect(sc, r)
 	case "busy-reconnect":
 		p.busyReconnect(sc, r)
+	case "write-fails":
+		p.writeFails(sc, r)
 	}
 	return r.Result()
 }
@@ -399,4 +408,96 @@ func (c05) noReconnect(sc core.Scenario, r *core.R) {
 	r.Key(fmt.Sprintf("noreconnect %s map=%v", kind, mapping), lossSeen)
 	r.Obs("noreconnect_losses", 1)
 	r.Sample(map[string]interface{}{"no_reconnect": true, "fault": kind, "accepts_after_loss": env.Px.Accepts() - acc})
+}
+
+// writeFails: RST placed at ws.req.registered (client side: the request has passed the "connection known to
+// be dead?" check and is about to be written): the request about to be written meets a socket
+// that has just been reset, while the reader has not yet told the connection loop. A retry-tagged call hit
+// this way must still ride out the (short) outage; an untagged one must fail with the connection error.
+func (c05) writeFails(sc core.Scenario, r *core.R) {
+	mapping := sc.I("map") == 1
+	env := NewEnv(EnvOpt{})
+	defer env.Shutdown()
+	pol := &core.Policy{Seed: sc.Seed}
+	var once sync.Once
+	firedCh := make(chan struct{})
+	armed := int32(0)
+	var once2 sync.Once
+	pol.Rules = append(pol.Rules, &core.Rule{Point: "ws.req.registered", Side: 1, Do: func(jsonrpc.VerifEvent) {
+		switch atomic.LoadInt32(&armed) {
+		case 1:
+			once.Do(func() {
+				env.Px.KillAll(wsproxy.RST)
+				time.Sleep(3 * time.Millisecond) // the reset reaches the client's socket; the loop then writes
+				close(firedCh)
+			})
+		case 2:
+			once2.Do(func() {
+				env.Px.KillAll(wsproxy.RST)
+				time.Sleep(3 * time.Millisecond)
+			})
+		}
+	}})
+	defer pol.Install()()
+	opts := []jsonrpc.Option{jsonrpc.WithReconnectBackoff(5*time.Millisecond, 20*time.Millisecond)}
+	if mapping {
+		opts = append(opts, jsonrpc.WithErrors(jsonrpc.NewErrors()))
+	}
+	cl, err := env.NewClient(ClientOpt{Opts: opts})
+	if err != nil {
+		r.Inconclusive("client: %v", err)
+		return
+	}
+	bg := context.Background()
+	for i := 0; i < sc.I("occ"); i++ {
+		t := Tok("w")
+		if v, err := cl.Echo(bg, t, ""); err != nil || v != svc.Reply(t) {
+			r.Inconclusive("warm-up: %v", err)
+			return
+		}
+	}
+	// (a) a retry-tagged call is the one whose write fails
+	atomic.StoreInt32(&armed, 1)
+	tr := Tok("r")
+	o := Go(tr, func() (string, error) { return cl.EchoR(bg, tr, "") })
+	if !o.Wait(2 * core.Grace) {
+		r.Violate("retry-hang", "a retry-tagged call whose request write met a freshly reset socket never returned")
+		return
+	}
+	formed := false
+	select {
+	case <-firedCh:
+		formed = true
+	default:
+	}
+	if o.Err != nil || o.Val != svc.Reply(tr) {
+		r.Violate("retry-surfaced-error", "a retry-tagged call whose request write met a freshly reset socket (reader had not reported the loss yet) returned (%q, %v) instead of riding out the outage", o.Val, o.Err)
+	}
+	if !probeUntilHealthy(cl, r, 2*core.Grace) {
+		r.Violate("no-recovery", "client did not heal after a failed request write")
+		return
+	}
+	// (b) the same for an untagged call: it must fail, with the connection error
+	atomic.StoreInt32(&armed, 2)
+	tu := Tok("u")
+	ou := Go(tu, func() (string, error) { return cl.Echo(bg, tu, "") })
+	if !ou.Wait(2 * core.Grace) {
+		r.Violate("untagged-hang", "an untagged call whose request write met a freshly reset socket never returned")
+	} else if ou.Err == nil {
+		if ou.Val != svc.Reply(tu) {
+			r.Violate("foreign-result", "untagged call returned %q", ou.Val)
+		}
+	} else {
+		msg := ou.Err.Error()
+		var ce *jsonrpc.RPCConnectionError
+		if mapping && !errors.As(ou.Err, &ce) {
+			r.Violate("untagged-not-typed", "with error mapping enabled, the error of a call whose request write failed is %T (%v), not *RPCConnectionError", ou.Err, ou.Err)
+		} else if !mapping && strings.Contains(msg, "id didn't match") {
+			r.Violate("untagged-wrong-error", "a call whose request write failed reports %q instead of the connection error", msg)
+		}
+	}
+	r.Key(fmt.Sprintf("write-fails occ=%d map=%v formed=%v", sc.I("occ"), mapping, formed), formed)
+	r.Obs("write_fail_windows", b2i(formed))
+	r.Sig(core.Log.Signature())
+	r.Sample(map[string]interface{}{"scenario": "request write meets a freshly reset socket", "error_mapping": mapping, "formed": formed, "untagged_error": errStr(ou.Err)})
 }
